@@ -2,7 +2,10 @@ mod alloc;
 mod api;
 mod c01;
 mod c02;
+mod c04;
 mod c05;
+mod c06;
+mod c07;
 mod gram;
 mod util;
 mod c03;
@@ -26,7 +29,10 @@ fn main() {
                 "C01" => c01::run(&args, &mut rec),
                 "C02" => c02::run(&args, &mut rec),
                 "C03" => c03::run(&args, &mut rec),
+                "C04" => c04::run(&args, &mut rec),
                 "C05" => c05::run(&args, &mut rec),
+                "C06" => c06::run(&args, &mut rec),
+                "C07" => c07::run(&args, &mut rec),
                 "C13" => c13::run(&args, &mut rec),
                 "smoke" => smoke::run(&args, &mut rec),
                 "load" => {
